@@ -123,9 +123,9 @@ func IDs() []string {
 	return out
 }
 
-var allShapes = []string{"doc", "flat", "kv", "nested", "person", "rep3"}
+var allShapes = []string{"doc", "flat", "flatb", "kv", "nested", "nestedb", "person", "rep3"}
 
-// c13Shapes adds the twin shapes (same column names, different physical types).
+// c13Shapes: all shapes; flat/flatb and nested/nestedb are twins (same column names, different physical types).
 var c13Shapes = []string{"doc", "flat", "flatb", "kv", "nested", "nestedb", "person", "rep3"}
 
 // writerCandidates lifts ShrinkWriter to cases.
